@@ -1299,3 +1299,29 @@ Proof.
         apply nth_error_map_cell. split; [exact Hj | reflexivity]. }
       rewrite Hf in Hin. exact Hin.
 Qed.
+
+(* ======================================================================== *)
+(* the summary printed at the end of Tuner.run()                            *)
+(* ======================================================================== *)
+
+Lemma final_summary_one_mode name names m ts :
+  tuner_final_summary (name :: names) (OneMode m) ts = print_best ts name m.
+Proof. reflexivity. Qed.
+
+(* With a LIST of modes (any scheduler with several metrics) the summary reads the
+   list as "max": three trials reporting loss 9/10, 1/10, 1/2, modes [min; min] ->
+   the summary names trial 0 with 9/10 although trial 1 reported 1/10. *)
+Lemma final_summary_mode_list_wrong :
+  exists (names : list key) (ms : modes) (history : list (list Z * list (Z * dict))) name t v t' x,
+    metric_name_mode names ms (ByIndex 0) = Some (name, Min) /\
+    tuner_final_summary names ms (ts_run history) = Some (t, v) /\
+    In x (counted name (of_trial t' (handed history))) /\
+    better Min x v = true.
+Proof.
+  exists [KUser 0; KUser 1], (ModeList [Min; Min]),
+         [ ([0%Z], [(0%Z, [(KUser 0, VNum (Fin (9#10))); (KUser 1, VNum (Fin 0))])]);
+           ([1%Z], [(1%Z, [(KUser 0, VNum (Fin (1#10))); (KUser 1, VNum (Fin 10))])]);
+           ([2%Z], [(2%Z, [(KUser 0, VNum (Fin (1#2))); (KUser 1, VNum (Fin 20))])]) ],
+         (KUser 0), 0%Z, (Fin (9#10)), 1%Z, (Fin (1#10)).
+  vm_compute. repeat split. left. reflexivity.
+Qed.
